@@ -45,7 +45,10 @@ var injectKinds = []string{"goto", "labelled-break", "labelled-continue", "selec
 	"fallthrough-after-yielding-if", "fallthrough-after-yielding-if-else", "fallthrough-after-yielding-switch",
 	// a defer BEHIND a yield of the same loop body / branch / bare block, with nothing that
 	// yields behind it in its own statement list (deferred calls run when the generator ends)
-	"defer-after-yield-in-loop", "defer-after-yield-in-if", "defer-in-bare-block-after-yield"}
+	"defer-after-yield-in-loop", "defer-after-yield-in-if", "defer-in-bare-block-after-yield",
+	// a labelled loop left by 'break L' from inside a TYPE switch; index-only range over a NIL
+	// pointer to an array with a yield in its body
+	"labelled-break-in-type-switch", "range-nil-ptr-array-index-only-yielding"}
 
 // rawInject returns the source text of the construct (placeholders as in templates).
 func rawInject(kind string, tag func() int, control bool) string {
@@ -84,6 +87,10 @@ func rawInject(kind string, tag func() int, control bool) string {
 		return fmt.Sprintf("if vrt.B(%d, true) {\n\t%s\n\tdefer vrt.E(%d)\n}\nvrt.E(%d)\n%s\nvrt.E(%d)", tag(), y("98"), tag(), tag(), y("97"), tag())
 	case "defer-in-bare-block-after-yield":
 		return fmt.Sprintf("%s\n{\n\tdefer vrt.E(%d)\n}\nvrt.E(%d)\n%s\nvrt.E(%d)", y("96"), tag(), tag(), y("95"), tag())
+	case "labelled-break-in-type-switch":
+		return fmt.Sprintf("L9:\n\tfor i9 := 0; i9 < 6; i9++ {\n\t\tswitch x9 := any(i9).(type) {\n\t\tcase int:\n\t\t\tif x9 == 3 {\n\t\t\t\tbreak L9\n\t\t\t}\n\t\t\t%s\n\t\tcase string:\n\t\t\tvrt.E(%d)\n\t\t}\n\t}\n%s", y("x9"), tag(), y("-4"))
+	case "range-nil-ptr-array-index-only-yielding":
+		return fmt.Sprintf("var np9 *[3]int\nfor i9 := range np9 {\n\t%s\n}\nvrt.E(%d)", y("i9+40"), tag())
 	case "range-func":
 		return fmt.Sprintf("for v9 := range func(yield func(int) bool) {\n\t_ = yield(1) && yield(2)\n} {\n\t%s\n}", y("v9"))
 	case "range-ptr-array":
